@@ -73,7 +73,7 @@ def gen_rule_spec(rng, era):
     """(kind, attrs) - era 'old': rules that existed up to 1.1.1 (+ custom); 'new': also later ones"""
     kinds = ['streq', 'streq', 'pairs', 'cidr', 'subjeq', 'acteq', 'resin', 'regex', 'custom', 'custom-set']
     if era == 'new':
-        kinds += ['eq', 'in', 'and', 'starts', 'subjmatch', 'actmatch', 'resmatch', 'eq', 'subjmatch']
+        kinds += ['eq', 'in', 'and', 'starts', 'subjmatch', 'actmatch', 'resmatch', 'eq', 'subjmatch', 'deep']
     k = pick(rng, kinds)
     if k == 'streq':
         return k, {'val': gen_str(rng, 4), 'ci': rng.random() < 0.5}
@@ -93,12 +93,18 @@ def gen_rule_spec(rng, era):
         return k, {'rules': {'py/tuple': [{OBJ: 'vakt.rules.operator.Eq', 'val': 1}]}}
     if k == 'starts':
         return k, {'val': 'a', 'ci': False}
+    if k == 'deep':
+        # a rule nested many levels deep (negations of negations ...): rewritten whole by every step that touches it
+        inner = {OBJ: 'vakt.rules.operator.Eq', 'val': 1}
+        for _ in range(pick(rng, [12, 20, 34, 44])):
+            inner = {OBJ: 'vakt.rules.logic.Not', 'rule': inner}
+        return k, {'rule': inner}
     if k in ('subjmatch', 'actmatch', 'resmatch'):
         return k, {'attribute': pick(rng, [None, 'name'])}
     return k, {}
 
 
-NEW_CLASS = {'eq': 'vakt.rules.operator.Eq', 'in': 'vakt.rules.list.In', 'and': 'vakt.rules.logic.And',
+NEW_CLASS = {'deep': 'vakt.rules.logic.Not', 'eq': 'vakt.rules.operator.Eq', 'in': 'vakt.rules.list.In', 'and': 'vakt.rules.logic.And',
              'starts': 'vakt.rules.string.StartsWith', 'subjmatch': 'vakt.rules.inquiry.SubjectMatch',
              'actmatch': 'vakt.rules.inquiry.ActionMatch', 'resmatch': 'vakt.rules.inquiry.ResourceMatch',
              'custom': 'myapp.rules.Custom', 'custom-set': 'myapp.rules.Custom'}
